@@ -392,6 +392,8 @@ type histResult struct {
 	// a new token and the key set taken after everything else had finished (signer histories)
 	Final *finalView  `json:"final,omitempty"`
 	Storm *stormStats `json:"storm,omitempty"`
+	// in-place rewrites of the key store, verifier clients revalidating their copy of the key set
+	Rewrite *rewriteStats `json:"rewrite,omitempty"`
 }
 
 type finalView struct {
